@@ -2,8 +2,9 @@
 //
 // Bounded exhaustive exploration (breadth first, exact-state dedup) of every interleaving of the operations of
 // 2–3 configuration transactions (Set / read-everything / Commit) and of Save/Restore/DiscardRevisionConfig on one
-// real state.State. Operations are atomic under the state lock, so the interleavings of operations are the whole
-// schedule space. After every operation the complete observable behaviour (every Get of every transaction that has
+// real state.State, over one or two snaps ("core" and "s": the same colliding option paths in both, so that every
+// cross-snap mix-up is observable). Operations are atomic under the state lock, so the interleavings of operations
+// are the whole schedule space. After every operation the complete observable behaviour (every Get of every transaction that has
 // begun, the committed configuration, the revision snapshots) is compared with a nested-map reference.
 //
 // In-package (package config) so that the canonical state key can be the exact internal state of each
@@ -28,7 +29,9 @@ import (
 	eng "github.com/snapcore/snapd/verifengine"
 )
 
-const c29Snap = "s"
+const c29Snap = "s" // the snap of single-snap spaces (and of operations recorded without a snap)
+
+var c29TwoSnaps = []string{"core", "s"}
 
 var c29AllKeys = []string{"a", "a.b", "a.b.c", "d"}
 
@@ -61,23 +64,31 @@ const (
 )
 
 type c29Op struct {
-	Op  string `json:"op"`
-	Tx  int    `json:"tx,omitempty"`
-	Key string `json:"key,omitempty"`
-	Val int    `json:"val,omitempty"`
-	Rev int    `json:"rev,omitempty"`
+	Op   string `json:"op"`
+	Tx   int    `json:"tx,omitempty"`
+	Snap string `json:"snap,omitempty"` // set and revision operations; "" = c29Snap
+	Key  string `json:"key,omitempty"`
+	Val  int    `json:"val,omitempty"`
+	Rev  int    `json:"rev,omitempty"`
+}
+
+func (o c29Op) snap() string {
+	if o.Snap == "" {
+		return c29Snap
+	}
+	return o.Snap
 }
 
 func (o c29Op) String() string {
 	switch o.Op {
 	case c29Set:
-		return fmt.Sprintf("T%d.set(%s=%s)", o.Tx, o.Key, eng.JSON(c29Value(o.Val, o.Tx)))
+		return fmt.Sprintf("T%d.set(%s:%s=%s)", o.Tx, o.snap(), o.Key, eng.JSON(c29Value(o.Val, o.Tx)))
 	case c29ReadAll:
 		return fmt.Sprintf("T%d.read", o.Tx)
 	case c29Commit:
 		return fmt.Sprintf("T%d.commit", o.Tx)
 	}
-	return fmt.Sprintf("%s(%d)", o.Op, o.Rev)
+	return fmt.Sprintf("%s(%s,%d)", o.Op, o.snap(), o.Rev)
 }
 
 type c29Case struct {
@@ -85,6 +96,7 @@ type c29Case struct {
 	Path  []c29Op  `json:"path"`
 	Trace string   `json:"trace,omitempty"`
 	Keys  []string `json:"keys,omitempty"`
+	Snaps []string `json:"snaps,omitempty"`
 }
 
 func c29Trace(p []c29Op) string {
@@ -208,31 +220,74 @@ func c29Canon(v interface{}, present bool) string {
 }
 
 type c29Write struct {
+	snap  string
 	path  []string
 	value interface{}
 }
 
+// c29Cfg is the committed configuration: snap -> options. A snap without an entry has no key (a nil map is never stored).
+type c29Cfg map[string]map[string]interface{}
+
+func (c c29Cfg) copy() c29Cfg {
+	r := c29Cfg{}
+	for sn, m := range c {
+		r[sn] = c29CopyMap(m)
+	}
+	return r
+}
+
+// canon renders the configuration of the given snaps modulo empty maps ("-" = no options).
+func (c c29Cfg) canon(snaps []string) string {
+	parts := make([]string, len(snaps))
+	for i, sn := range snaps {
+		parts[i] = sn + "=" + c29Canon(c[sn], c[sn] != nil)
+	}
+	return strings.Join(parts, " ")
+}
+
 type c29RefTx struct {
 	begun    bool
-	snapshot map[string]interface{}
+	snapshot c29Cfg // the committed configuration (of every snap) when the transaction began / last committed
 	writes   []c29Write
 }
 
 type c29Ref struct {
-	committed map[string]interface{} // configuration of the snap (nil = the snap has no entry)
-	revs      map[int]map[string]interface{}
+	committed c29Cfg
+	revs      map[string]map[int]map[string]interface{} // snap -> revision -> saved options
 	txs       []*c29RefTx
+	// snaps whose committed configuration the last operation was entitled to change (commit: the snaps the
+	// transaction wrote to; restore: its snap)
+	entitled map[string]bool
 }
 
-func (t *c29RefTx) view(base map[string]interface{}) map[string]interface{} {
+func (t *c29RefTx) begin(ref *c29Ref) {
+	if !t.begun {
+		t.begun = true
+		t.snapshot = ref.committed.copy()
+	}
+}
+
+// view: the options of one snap as the transaction should see them: base with its writes to that snap applied in order.
+func (t *c29RefTx) view(sn string, base map[string]interface{}) map[string]interface{} {
 	v := map[string]interface{}{}
 	if base != nil {
 		v = c29CopyMap(base)
 	}
 	for _, w := range t.writes {
-		c29RefSet(v, w.path, w.value)
+		if w.snap == sn {
+			c29RefSet(v, w.path, w.value)
+		}
 	}
 	return v
+}
+
+// written: the snaps the transaction has uncommitted writes for.
+func (t *c29RefTx) written() map[string]bool {
+	r := map[string]bool{}
+	for _, w := range t.writes {
+		r[w.snap] = true
+	}
+	return r
 }
 
 // ---------------------------------------------------------------------------------------------------
@@ -286,8 +341,8 @@ func c29Floats(v interface{}) interface{} {
 }
 
 // committedConfig reads the committed configuration of the snap straight from the state.
-func (in *c29Inst) committedConfig() (map[string]interface{}, bool) {
-	raw, err := GetSnapConfig(in.st, c29Snap)
+func (in *c29Inst) committedConfig(sn string) (map[string]interface{}, bool) {
+	raw, err := GetSnapConfig(in.st, sn)
 	if err != nil {
 		eng.HarnessError("GetSnapConfig: %v", err)
 	}
@@ -298,13 +353,13 @@ func (in *c29Inst) committedConfig() (map[string]interface{}, bool) {
 	return m, true
 }
 
-func (in *c29Inst) revisionConfigs() map[string]interface{} {
+func (in *c29Inst) revisionConfigs(sn string) map[string]interface{} {
 	var rc map[string]map[string]*json.RawMessage
 	if err := in.st.Get("revision-config", &rc); err != nil {
 		return map[string]interface{}{}
 	}
 	res := map[string]interface{}{}
-	for rev, raw := range rc[c29Snap] {
+	for rev, raw := range rc[sn] {
 		if raw == nil {
 			res[rev] = nil
 			continue
